@@ -413,7 +413,7 @@ func (x *Exec) modCallee(st *State, callee *ssa.Function, args []ssa.Value, reso
 			}
 		}
 	}
-	if lm := libModels[key]; lm != nil {
+	if lm := findLibModel(key); lm != nil {
 		if lm.mods != nil {
 			var avs []Val
 			var known []bool
@@ -431,7 +431,7 @@ func (x *Exec) modCallee(st *State, callee *ssa.Function, args []ssa.Value, reso
 			limitf("no model for library function %s", key)
 		}
 	}
-	ct := x.E.CS.ByFunc[key]
+	ct := x.E.CS.get(key)
 	if ct != nil && !ct.Inline {
 		x.modsFromContract(st, callee, ct, func(name string) (Val, bool) {
 			for _, p := range callee.Params {
@@ -674,7 +674,7 @@ func (x *Exec) havocObj(st *State, o *Obj, fields map[int]bool) {
 		}
 		if ft != nil {
 			nv.GT = ft
-			if tk := U.typeOK(nv.T, ft); tk != "" {
+			if tk := U.typeOKEager(nv.T, ft); tk != "" {
 				st.assume(tk)
 			}
 		}
@@ -768,7 +768,7 @@ func (x *Exec) bindPhis(st *State, h *ssa.BasicBlock, havoc bool) {
 				limitf("%s: loop-carried pointer to a local object (%s)", x.key, p.Comment)
 			}
 			nv := Val{S: s, T: st.fresh(p.Comment+"_"+p.Name(), s), GT: p.Type()}
-			if tk := U.typeOK(nv.T, p.Type()); tk != "" {
+			if tk := U.typeOKEager(nv.T, p.Type()); tk != "" {
 				st.assume(tk)
 			}
 			vals = append(vals, nv)
